@@ -70,7 +70,7 @@ MECHS = ["rdp", "gdp", "prv"]
 
 
 # --------------------------------------------------------------------------- generation
-def gen_spec(rng, allow_lambda=True):
+def gen_spec(rng, allow_lambda=True, allow_obj=False):
     k = rng.choice(["none", "none", "exp", "step", "lam", "exp"])
     if k == "lam" and not allow_lambda:
         k = "exp"
@@ -80,7 +80,7 @@ def gen_spec(rng, allow_lambda=True):
         return ("exp", rng.choice([0.5, 0.9, 0.99, 1.0, 1.1, 2.0, 0.7071067811865476]))
     if k == "step":
         return ("step", rng.choice([0.5, 0.9, 1.25, 0.3]), rng.choice([1, 2, 3]))
-    return ("lam", rng.choice(sorted(R.LAMBDAS)))
+    return ("lam", rng.choice(sorted(R.LAMBDAS) + (["obj", "obj"] if allow_obj else [])))
 
 
 def gen_case(rng, max_ops, extras=True):
@@ -159,8 +159,8 @@ def cut_case(rng, kind="mlp", adaptive=False):
         "mech": mech, "opt": rng.choice(["sgdm", "adam", "sgd"]), "lrdecay": rng.choice([None, 0.5, 0.8]),
         "sigma0": rng.choice([0.6, 1.0, 1.3, 2.0]), "c0": rng.choice([0.5, 1.0, 2.0]),
         "nb": rng.choice([7, 10, 16]),
-        "ns": ("none",) if mech == "gdp" else gen_spec(rng),
-        "cs": gen_spec(rng), "kind": kind, "seed": rng.randrange(1000),
+        "ns": ("none",) if mech == "gdp" else gen_spec(rng, allow_obj=True),     # oracle scenarios only: the model tabulates pure functions
+        "cs": gen_spec(rng, allow_obj=True), "kind": kind, "seed": rng.randrange(1000),
     }
     if adaptive:
         cfg.update(clipping="adaptive", ns=("none",), cs=("none",), mech=rng.choice(["rdp", "prv"]))
@@ -354,6 +354,8 @@ def tdiff(a, b):
         if len(a) != len(b):
             return float("inf")
         return max([tdiff(x, y) for x, y in zip(a, b)] + [0.0])
+    if hasattr(a, "state") and hasattr(b, "state") and callable(getattr(a, "state")) and callable(getattr(b, "state")):
+        return 0.0 if a.state() == b.state() else float("inf")      # stateful schedule objects: compared by their state
     if callable(a) and callable(b):
         return 0.0 if a is b else float("inf")
     if isinstance(a, float) and isinstance(b, float):
@@ -599,6 +601,20 @@ def run(ctx):
                 ctx.count("search:resume:live-values-carried")
                 if res:
                     ctx.property_failure(res[0], res[1], dict(res[2], failing_input=dict(scn, carry_live=True)))
+        # every run: Lambda schedules given as stateful callable OBJECTS (saved with the scheduler's state_dict), stepped before
+        # and after the cut, resumed under the carried-live-values protocol
+        for i in range(ctx.n(4, 40)):
+            scn = cut_case(ctx.rng, kind="token")
+            which = "ns" if (i % 2 == 0 and scn["cfg"]["mech"] != "gdp") else "cs"
+            scn["cfg"][which] = ("lam", "obj")
+            scn["cfg"].pop("clipping", None)
+            b0 = sum(o.split()[0] in ("log", "skip") for o in scn["ops"])
+            scn["ops"] = [which, f"log {b0}", which] + scn["ops"] + [which, f"log {b0 + 1}"]
+            scn["cut"] = 3 + scn["cut"]
+            ctx.count("search:resume:stateful-schedule-object")
+            res = resume_oracle(scn, eps=False, carry_live=True)
+            if res:
+                ctx.property_failure(res[0], res[1], dict(res[2], failing_input=dict(scn, carry_live=True)))
         for mech in MECHS:
             for orc in (reject_oracle, alias_oracle, regen_oracle):
                 cfg = {"mech": mech, "opt": "sgdm", "sigma0": 1.0, "c0": 1.0, "nb": 10, "ns": ("none",), "cs": ("none",), "kind": "token", "seed": 3}
